@@ -1,21 +1,18 @@
 (* Properties/C13.v -- configuration round-trips through text and has a single precedence
    order.  Model: Model/Config.v (config.py; lock-down code of plssdesc.py and tract.py). *)
 From Coq Require Import List NArith ZArith Bool.
-From PyTRS Require Import Engine.Regex Gen.Patterns PyRt.Str Gen.Tables Model.Trs Model.Config Proofs.C13.Config.
+From PyTRS Require Import Engine.Regex Gen.Patterns PyRt.Str Gen.Tables Model.Trs Model.Config Proofs.C13.Config Proofs.C13.Seam.
 Import ListNotations.
 
-(* FULL statement of the round trip (kept visible): every configuration in the documented
-   domain survives decompile_to_text followed by Config(text).  Proved below under the
-   string-level seam [seam c] (splitting the joined tokens gives the tokens back), which is
-   validated by differential execution; ints are swept for -100 <= z <= 1000. *)
+(* the round trip: every configuration in the documented domain (every boolean / direction /
+   layout value, ints -100..1000) survives decompile_to_text followed by Config(text).
+   String level included: the joined text is split back into exactly the tokens written
+   (Proofs/C13/Seam.v, on the regenerated separator / whitespace patterns, any length). *)
 Definition C13_roundtrip_full : Prop :=
   forall c, in_domain c -> (do t <- decompile_to_text c; text_to_attributes t) = Ok c.
-
-Theorem C13_roundtrip_partial : forall c,
-  in_domain c -> seam c -> (do t <- decompile_to_text c; text_to_attributes t) = Ok c.
-Proof. exact roundtrip_under_seam. Qed.
-Print Assumptions C13_roundtrip_partial.
-
+Theorem C13_roundtrip : C13_roundtrip_full.
+Proof. exact roundtrip_full. Qed.
+Print Assumptions C13_roundtrip.
 (* token level, no seam: the tokens written for a configuration, read back one by one,
    rebuild exactly that configuration *)
 Theorem C13_tokens_roundtrip : forall c,
